@@ -265,11 +265,11 @@ func c08(r *mon.Run) {
 		objs8[k] = map[string]interface{}{"k": float64(k), "l": []interface{}{float64(k), float64(k + 1)}}
 	}
 	objs8[2] = nil
-	two := mon.Workload{Name: "two-slices", N: T * T * 7,
+	two := mon.Workload{Name: "two-slices", N: T * T * 10,
 		Describe: func(i int) string { return fmt.Sprint("two-slices case ", i) },
 		Do: func(i int, t *mon.Tally) {
-			form := i % 7
-			k := i / 7
+			form := i % 10
+			k := i / 10
 			a, b := triples[k/T], triples[k%T]
 			sa, sb := gen.StSliceS(a[0], a[1], a[2]), gen.StSliceS(b[0], b[1], b[2])
 			var tree *gen.Expr
@@ -287,8 +287,14 @@ func c08(r *mon.Run) {
 				tree = gen.MultiList(gen.Chain(gen.Current(), sa, gen.StField("k")), gen.Chain(gen.Current(), sb, gen.StField("k")), gen.Chain(gen.Current(), sa, gen.StField("k")))
 			case 5:
 				tree = gen.MultiList(gen.Chain(gen.Current(), sa), gen.Chain(gen.Current(), sb), gen.Func("length", gen.Current()))
-			default:
+			case 6:
 				tree = gen.MultiList(gen.Chain(gen.Current(), sa, gen.StField("l"), gen.StIndex(1)), gen.Chain(gen.Current(), sb, gen.StField("l"), gen.StFlatten()))
+			case 7: // a slice of what a slice selected (nulls dropped by the first one), piped
+				tree = gen.Pipe(gen.Chain(nil, sa), gen.Chain(nil, sb))
+			case 8:
+				tree = gen.Pipe(gen.Chain(nil, sa), gen.Chain(nil, sb, gen.StField("k")))
+			default:
+				tree = gen.MultiList(gen.Func("length", gen.Pipe(gen.Chain(nil, sa), gen.Chain(nil, sb))), gen.Chain(gen.Paren(gen.Chain(nil, sa)), sb))
 			}
 			var doc interface{} = seqArray(8)
 			if form >= 4 {
